@@ -48,8 +48,9 @@ def mk_descs(rng, n, **kw):
             d['close_mode'] = d['close_mode'](rng)
         if callable(d['with_close']):
             d['with_close'] = d['with_close'](rng)
-        if kw.get('debug_log'):
-            d['debug_log'] = rng.random() < kw['debug_log']
+        # a slice of every family of endpoint histories runs with the library's frame logging enabled (a configuration
+        # nothing else varies); drawn from its own generator so that the other choices of a seed stay what they were
+        d['debug_log'] = random.Random(d['seed'] ^ 0x5EED).random() < kw.get('debug_log', 0.12)
         out.append(d)
     return out
 
